@@ -227,7 +227,14 @@ def register(S):
 
     @S.on("core::fmt::Formatter::<'a>::write_str", "<alloc::string::String as core::fmt::Write>::write_str", "core::fmt::Write::write_str")
     def write_str(ctx):
-        ctx.ip.event(ctx.st, "write_str", fn=ctx.fr.fn["path"], span=ctx.call.get("span"))
+        sv = ctx.args[1] if len(ctx.args) > 1 else None
+        hops = 0
+        while isinstance(sv, RefVal) and hops < 3:
+            sv = ctx.ip.read_loc(ctx.st, sv.loc)
+            hops += 1
+        ctx.ip.event(ctx.st, "write_str", fn=ctx.fr.fn["path"], span=ctx.call.get("span"), s=sv.get("s") if isinstance(sv, Opaque) and sv.kind == "str" else None)
+        if ctx.ip.opts.get("fmt_infallible"):
+            return ctx.ret(ok(UNIT))
         s_ok, s_err = ctx.st, ctx.st.copy()
         return ctx.ret_states([(s_ok, ok(UNIT)), (s_err, err(AdtVal(FMT_ERR, 0, [])))])
 
